@@ -192,11 +192,76 @@ def run_case(col, rng, recipe, shared, segs, k_exist, purpose):
             col.violation('C12/impossible-deletion-succeeds:' + kind, '%s: plain Python fails (%r), glom returned' % (desc, ref_err), wit)
 
 
+def wildcard_deletes(col, rng):
+    """through wildcards: deletion at EVERY match; with ignore_missing matches lacking the element are skipped, the others deleted"""
+    import copy
+    for _ in range(120):
+        layers = rng.choice([1, 1, 2])
+        n = rng.randint(1, 4)
+        final = rng.choice(['key', 'index', 'attr'])
+
+        def entry():
+            has = rng.random() < 0.7
+            if final == 'key':
+                return {'k': 1, 'o': 2} if has else {'o': 2}
+            if final == 'index':
+                return [1, 2, 3] if has else [1]
+            return gen.PlainObj(k=1, o=2) if has else gen.PlainObj(o=2)
+        if layers == 1:
+            t1 = {'rows': [entry() for _ in range(n)]}
+            holders = lambda t: list(t['rows'])
+            base = 'rows.*'
+        else:
+            t1 = {'rows': [{'sub': [entry() for _ in range(rng.randint(0, 3))]} for _ in range(n)]}
+            holders = lambda t: [e for r in t['rows'] for e in r['sub']]
+            base = 'rows.*.sub.*'
+        t2 = copy.deepcopy(t1)
+        seg = {'key': 'k', 'index': '2', 'attr': 'k'}[final]
+        spelling = rng.choice(['string', 'path', 'T'])
+        if spelling == 'string':
+            path = base + '.' + seg
+        else:
+            parts = [T.__star__() if p == '*' else p for p in base.split('.')]
+            if spelling == 'T':
+                t = T
+                for p in parts:
+                    t = t.__star__() if p is not parts and not isinstance(p, str) else t[p]
+                path = t[seg] if final == 'key' else t[2] if final == 'index' else getattr(t, seg)
+            else:
+                path = Path(*(parts + [seg if final != 'index' else 2]))
+        missing_somewhere = False
+        for h in holders(t2):
+            try:
+                if final == 'key':
+                    del h['k']
+                elif final == 'index':
+                    del h[2]
+                else:
+                    del h.k
+            except (KeyError, IndexError, AttributeError):
+                missing_somewhere = True
+        ignore = rng.random() < 0.6
+        snap = snapshot(t1)
+        got = call(delete, t1, path, ignore_missing=ignore)
+        col.case(('wildcard', layers, final, spelling, ignore, missing_somewhere), True)
+        col.count('deletions_attempted')
+        desc = 'delete(%s, %s%s)' % (short(copy.deepcopy(t2) if False else '...', 10), short(path), ', ignore_missing=True' if ignore else '')
+        if missing_somewhere and not ignore:
+            if got.ok or not isinstance(got.exc, PathDeleteError):
+                col.violation('C12/wildcard-missing-final-not-PathDeleteError', '%s with a match lacking the element: %r' % (desc, got), None)
+            continue
+        if not got.ok or got.value is not t1 or not isomorphic(t1, t2):
+            col.violation('C12/wildcard-delete-misses-a-match:%s' % ('ignore-missing' if ignore else 'all-present'),
+                          '%s: %r ; target now %s ; del at every match gives %s' % (desc, got if not got.ok else 'returned', short(t1, 300), short(t2, 300)), None)
+        col.count('successful_deletions')
+
+
 def run(ctx):
     col, rng = ctx.col, ctx.rng
     col.require('successful_deletions', 200)
     col.require('missing_final_cases', 200)
     col.require('missing_parent_cases', 200)
     col.require('faults_injected', 20)
+    wildcard_deletes(col, rng)
     for i in range(ctx.n(350, 3500)):
         one_target(col, rng)
